@@ -221,9 +221,8 @@ func (e *SpecEnv) eval(ex Expr) Val {
 			x.nameCtr++
 			binds = append(binds, "("+nm+" "+x.sortOf(T)+")")
 			ch.vars[b.Name] = Term{nm, T}
-			if b.Type == "string" {
-				guards = append(guards, app("<=", "0", nm))
-			}
+			// no guard for string-sorted variables: clauses are proved and assumed for every
+			// value of the abstract string sort alike
 		}
 		body := ch.evalBool(n.Body)
 		if n.Forall {
@@ -432,7 +431,7 @@ func (e *SpecEnv) index(xv, iv Val) Val {
 	case *types.Slice:
 		name, srt := x.arrName(u.Elem())
 		arr := x.getArr(e.st, name, srt)
-		return Term{app("select", app("select", arr, app("s_arr", t.S)), app("+", app("s_off", t.S), i.S)), u.Elem()}
+		return Term{app("select", app("select", arr, app("s_arr", t.S)), app("at", app("s_off", t.S), i.S)), u.Elem()}
 	case *types.Map:
 		v, _ := x.mapGet(e.st, u, t.S, i.S)
 		return Term{v, u.Elem()}
